@@ -100,6 +100,11 @@ pub fn build_config(cfg: &Value, port: u16) -> MainConfig {
     c.name = cfg["name"].as_str().unwrap_or("irc.irc").to_string();
     c.network = cfg["network"].as_str().unwrap_or("IRCnetwork").to_string();
     c.motd = cfg["motd"].as_str().unwrap_or("Hello, world!").to_string();
+    if let Some(a) = cfg["admin_info"].as_str() {
+        c.admin_info = a.to_string();
+    }
+    c.admin_info2 = sopt(&cfg["admin_info2"]);
+    c.admin_email = sopt(&cfg["admin_email"]);
     c.ping_timeout = cfg["ping"].as_u64().unwrap_or(3600);
     c.pong_timeout = cfg["pong"].as_u64().unwrap_or(3600);
     c.password = sopt(&cfg["password"]).map(|p| hash_of(&p));
@@ -173,6 +178,71 @@ pub fn build_config(cfg: &Value, port: u16) -> MainConfig {
         }
     }
     c
+}
+
+// the configuration record with every field present (what the specification reads)
+pub fn normalize_cfg(cfg: &Value) -> Value {
+    let o = |v: &Value| -> Value {
+        match v {
+            Value::Null => json!([]),
+            Value::Array(_) => v.clone(),
+            x => json!([x.clone()]),
+        }
+    };
+    let arr = |v: &Value| -> Value {
+        match v {
+            Value::Array(_) => v.clone(),
+            _ => json!([]),
+        }
+    };
+    let ops: Vec<Value> = cfg["operators"]
+        .as_array()
+        .map(|a| {
+            a.iter()
+                .map(|x| json!({"name": x["name"], "pass": x["pass"], "mask": o(&x["mask"])}))
+                .collect()
+        })
+        .unwrap_or_default();
+    let us: Vec<Value> = cfg["users"]
+        .as_array()
+        .map(|a| {
+            a.iter()
+                .map(|x| {
+                    json!({"name": x["name"], "nick": x["nick"].as_str().unwrap_or("x"),
+                           "pass": o(&x["pass"]), "mask": o(&x["mask"])})
+                })
+                .collect()
+        })
+        .unwrap_or_default();
+    let chs: Vec<Value> = cfg["channels"]
+        .as_array()
+        .map(|a| {
+            a.iter()
+                .map(|x| {
+                    json!({"name": x["name"], "topic": o(&x["topic"]), "flags": arr(&x["flags"]),
+                           "key": o(&x["key"]), "limit": o(&x["limit"]), "ban": arr(&x["ban"]),
+                           "exc": arr(&x["exc"]), "invex": arr(&x["invex"]), "q": arr(&x["q"]),
+                           "a": arr(&x["a"]), "o": arr(&x["o"]), "h": arr(&x["h"]), "v": arr(&x["v"])})
+                })
+                .collect()
+        })
+        .unwrap_or_default();
+    json!({
+        "name": cfg["name"].as_str().unwrap_or("irc.irc"),
+        "network": cfg["network"].as_str().unwrap_or("IRCnetwork"),
+        "motd": cfg["motd"].as_str().unwrap_or("Hello, world!"),
+        "admin_info": cfg["admin_info"].as_str().unwrap_or("ircadmin is IRC admin"),
+        "admin_info2": o(&cfg["admin_info2"]),
+        "admin_email": o(&cfg["admin_email"]),
+        "password": o(&cfg["password"]),
+        "max_joins": o(&cfg["max_joins"]),
+        "max_connections": o(&cfg["max_connections"]),
+        "default_modes": arr(&cfg["default_modes"]),
+        "tls": cfg["tls"].as_bool().unwrap_or(false),
+        "ping": cfg["ping"].as_u64().unwrap_or(3600),
+        "pong": cfg["pong"].as_u64().unwrap_or(3600),
+        "operators": ops, "users": us, "channels": chs
+    })
 }
 
 static NEXT_PORT: AtomicU16 = AtomicU16::new(0);
